@@ -215,7 +215,7 @@ func C09(r *vf.Run) {
 			tag = fmt.Sprintf("reuse-v%d-after", bf.prevVer[size])
 		} else {
 			var err error
-			rom, err = snes.NewROM("t", img)
+			rom, err = newROMAnyWay(int(raw[3])>>2, "t", img)
 			if err != nil {
 				r.Fail("newrom-error", fmt.Sprintf("NewROM failed on %d-byte image: %v", size, err), nil)
 				return
@@ -362,6 +362,7 @@ func C09(r *vf.Run) {
 			}
 		})
 	}
+	c09HugeImages(r)
 	if r.Phase("too-small") {
 		// images below 32 KiB are rejected, not parsed
 		for _, n := range []int{0, 1, 0x7FB0, 0x7FFF} {
